@@ -273,14 +273,21 @@ deriving Repr
 /-- the code as it stands (the parser defaults are regenerated from the live parser) -/
 def Variant.asWritten : Variant := ⟨false, Gen.Cfg.cliArenaCacheSize, 1, Gen.Cfg.cliAccelerator⟩
 
+/-- `len(config.split(os.path.sep)) == 2 and not config.startswith(os.path.sep) and not
+    config.startswith(".") and not config.startswith("~")` on the normalised path -/
+def twoComponents (cs : List Char) : Bool :=
+  (splitOnChar '/' cs).length == 2 && cs.head? != some '/' && cs.head? != some '.' && cs.head? != some '~'
+
+/-- `config_path` of `_parse_config`: under the bundled directory for `Dir/file.ini`, else as given -/
+def configTarget (env : Env) (config : String) : String :=
+  if twoComponents (normpath config).toList then pathJoin env.bundled (normpath config) else normpath config
+
 /-- `_parse_config` of `main()` -/
 def parseConfigPath (env : Env) (config : String) : Except Err String :=
-  let c := normpath config
-  let cs := c.toList
-  if !endsWithL ".ini".toList cs then .error .inputFile else
-  let two := (splitOnChar '/' cs).length == 2 && cs.head? != some '/' && cs.head? != some '.' && cs.head? != some '~'
-  let path := if two then pathJoin env.bundled c else c
-  if (env.files.lookup (absPath env.cwd path)).isSome then .ok path else .error .inputFile
+  if hasIniExt config then
+    if (env.files.lookup (absPath env.cwd (configTarget env config))).isSome then .ok (configTarget env config)
+    else .error .inputFile
+  else .error .inputFile
 
 def mapPaths (env : Env) : List String → Except Err (List String)
   | [] => .ok []
